@@ -72,7 +72,7 @@ Definition Qlt_bool (a b : Q) : bool := negb (Qle_bool b a).
     underflowed, and against the Mills-ratio bounds  -z < phi(z)/Phi(z) < -z + 1/(-z)  for z < -1
     (the only check available in the far tail, where pdf and cdf are both 0.0 in binary64) *)
 Definition oracle_ok (dim : nat) (t : Q) (o : gp_oracle) : bool :=
-  Qlt_bool 0 (o_var o) && Qlt_bool 0 (o_sd o) && Qlt_bool 0 (o_ratio o)
+  Qlt_bool 0 (o_var o) && Qlt_bool 0 (o_sd o) && Qle_bool 0 (o_ratio o)
   && close (o_sd o * o_sd o) (o_var o)
   && close (o_z o) ((t - o_mean o) / o_sd o)
   && close (o_lr o) (o_logpdf o - o_logcdf o)
